@@ -177,7 +177,8 @@ def gen_case(run_seed: int, tier: str) -> dict[str, Any]:
     elif mode == "stdin_o":
         out = w.choice(["out.md", "newdir/out.md", docs[0]])
         inv["argv"] = ["-o", out] + _opts_argv(w, opts) + ["-"]
-        inv["stdin"] = tree[files[0]]["f"] if "f" in tree[files[0]] else b2j(b"# x\n")
+        src0 = tree.get(files[0]) or tree[docs[0]]  # (files[0] may be an alias path through the symlinked parent)
+        inv["stdin"] = src0["f"] if "f" in src0 else b2j(b"# x\n")
         inv["output"] = out
     elif mode in ("api_inplace", "api_inplace_nobackup"):
         inv["api"] = {"fn": "reformat_file", "path": files[0], "output": None, "inplace": True, "nobackup": mode.endswith("nobackup"), "opts": opts}
